@@ -33,6 +33,68 @@ CLAIMS = {
              "the ANTLR ALL(*) interpreter is not modelled. " + NOTE, ref="6 C15"),
 }
 
+CLAIMS.update({
+    "C02": dict(
+        technique="Lean 4 theorems (release gate decision logic, marker tables disjoint by kernel evaluation) + Spec judging of every result with RDKit",
+        text="C02_gate / C02_gate_transparent state the validation gate outright; C02_marker_tables_disjoint is decided by the kernel over the regenerated "
+             "marker tables. Every non-empty result of well-formed, meaningless and ungrammatical inputs under random option combinations is judged by "
+             "the executable Spec (parses, sanitises, one fragment, glycan elements only, no marker atom, no empty branch), also through convert.",
+        note="partial: the string-level lemmas (balanced parentheses, no marker survives the splice, label validity) are not yet proved; RDKit's "
+             "sanitisation is the validity oracle. " + NOTE, ref="6 C02"),
+    "C05": dict(
+        technique="Spec judging: atom and ring balance against the residues converted alone (RDKit), over the complete residue vocabulary; Lean placeholder",
+        text="Every sampled glycan's element counts (incl. H) and cyclomatic ring count are compared with the sum over its residues converted alone minus "
+             "(n-1) H2O; every vocabulary residue appears as child and as parent, every alditol as reducing end.",
+        note="partial: the additive formula lemma over the splice (formula_subst_leaf) is not yet proved - the Lean obligation counted here is the "
+             "tree-shape theorem the assembly relies on. " + NOTE, ref="6 C05"),
+    "C06": dict(
+        technique="Lean 4 theorems (edge normal form for all anomer/position texts, create resolution) + exhaustive connection forms + notation variants as molecules",
+        text="C06_edge_full/condensed/short are proved for arbitrary anomer symbols and position texts; C06_notation_invariant_spec is the full-strength "
+             "statement for a walker with the Spec's ketose test, C06_notation_invariant_partial the proved statement for the pinned (dead) test and "
+             "C06_default_pos_counterexample its kernel-checked witness (known finding); C06_ring_default and C06_anomer_suffix are proved over the "
+             "regenerated tables. All connection forms x anomer x positions are run exhaustively; random trees are rendered five ways and compared as molecules.",
+        note="One open known finding (short-form linkage with a 2-ketose child). to_enantiomer as identity for the own series is checked as molecules only. " + NOTE, ref="6 C06"),
+    "C07": dict(
+        technique="Spec judging: all permutations at all branching nodes give one canonical molecule; Lean theorem on the walker's child order",
+        text="For tree shapes up to 5/6 residues every permutation at every branching node (incl. the choice of the unbracketed main chain) and random "
+             "permutations of larger random trees must give the same RDKit canonical SMILES.",
+        note="partial: graftTree_perm / merge permutation theorem not yet proved. " + NOTE, ref="6 C07"),
+    "C09": dict(
+        technique="Lean 4 theorems by list induction over a model of converter.py (any conv, any argument mix) + differential runs of convert/convert_generator",
+        text="C09_pairs, C09_aligned, C09_isolated, C09_failing_input_empty, C09_generator_same are proved for every per-glycan behaviour and every "
+             "argument combination. The model is tied to converter.py by running both on the same call (conv table taken from direct Glycan calls); the "
+             "real calls are also judged directly against the Spec pairs. Running time is measured (growth ratio on doubling), not proved.",
+        note="partial: polynomial running time is a measurement; exceptions that do escape convert by design (missing file, raising user generator) are "
+             "outside the theorem. " + NOTE, ref="6 C09"),
+    "C10": dict(
+        technique="Lean 4 theorems on the release gate and the walker's full accumulation + obstacle-injection runs under full=True/False",
+        text="C10_full_true, C10_full_false, C10_full_false_same_as_true and the pinned counterexample are proved/decided; C10_addNodeEdge_full states how the "
+             "walker accumulates the flag. Random glycans with exactly one injected obstacle are converted under both settings and judged by the Spec.",
+        note="An obstacle that makes Glycan() raise instead of returning '' (unknown sugar inside a glycan) is counted, not flagged: no molecule is released and convert returns ''. " + NOTE, ref="6 C10"),
+    "C11": dict(
+        technique="Lean 4 theorems over a World model (logger switch, stdout, files) + call histories replayed against fresh interpreters",
+        text="C11_logger_restored(_generator), C11_stdout_clean, C11_files_untouched, C11_result_independent_of_world, C11_history_logger are proved for all "
+             "argument combinations and all histories of convert calls. Random call histories run in one fresh interpreter and every call alone in its own; "
+             "results, logger switch, fd-level stdout, caller lists and a digest of the three class-level tables must agree.",
+        note="partial: that the per-glycan conversion is a function of the glycan alone (copy/deepcopy discipline over the class-level tables) is tied by the "
+             "history runs, not yet by a heap model. " + NOTE, ref="6 C11"),
+    "C12": dict(
+        technique="Lean 4 theorems (all sinks render the same pairs; executor-independence under joblib's order contract) + all delivery paths x cpu_count",
+        text="C12_sinks_agree, C12_schedule_independent, C12_direct_use are proved; batches are delivered through list/file/stdout/generator/CLI with cpu_count in "
+             "{1,2,4,16,-1} and compared line by line with the Spec pairs.",
+        note="partial: joblib returning results in submission order is a hypothesis of the theorem; process start-up, pickling and fd inheritance are exercised, not modelled. " + NOTE, ref="6 C12"),
+    "C13": dict(
+        technique="Lean 4 decision-logic theorems (suffix wins, option fallback, start fallback) + RDKit stereocentre diff over anomer/option/start variants",
+        text="C13_suffix_wins, C13_option_used_without_suffix, C13_unknown_option_is_undefined, C13_start_fallback are proved. For vocabulary residues and random "
+             "glycans the a / b / undefined forms must differ in exactly one anomeric-type centre (erase -> undefined, invert -> other anomer) and every start value must give the same molecule.",
+        note="partial: the lift of the one-centre table theorem through grafts is not yet proved. " + NOTE, ref="6 C13"),
+    "C17": dict(
+        technique="Lean 4 theorems over a model of __main__.py (expansion = flatMap, one line per glycan) + in-process and subprocess CLI runs",
+        text="C17_expand and C17_lines are proved for every argument list and every file content; the CLI is run in-process and as `python -m glyles` on "
+             "argument lists mixing literals and files and compared with the Spec lines and with the model.",
+        note="Zero glycans (single empty file): no output file is written; accepted as 'nothing to list' (C17_empty_writes_nothing documents it). An existing -o file triggers an interactive prompt: not exercised. " + NOTE, ref="6 C17"),
+})
+
 PENDING = {}
 
 
